@@ -540,6 +540,7 @@ func (w *watch) stop() {
 	}
 
 	_ = w.watcher.Close()
+	w.watcher = nil
 	w.tracked = nil
 }
 
@@ -573,6 +574,13 @@ func (w *watch) watch(fsw *fsnotify.Watcher, m *sync.Mutex, refresh func() error
 			}
 
 			m.Lock()
+			if w.watcher != watch {
+				// We have been stopped or replaced while we were waiting for the
+				// lock. The state now belongs to the new configuration (and our
+				// dirErrors is not the one of the cache any more): leave it alone.
+				m.Unlock()
+				return
+			}
 			if event.Op == fsnotify.Remove && w.tracked[event.Name] {
 				w.update(dirErrors, event.Name)
 			} else {
